@@ -112,6 +112,7 @@ type FnEnc struct {
 	usedContracts map[string]bool
 	top      *frame
 	prePC    string
+	pureCond string
 	preNDecls int
 	inputTypes []types.Type
 	depth    int
@@ -144,6 +145,23 @@ type frame struct {
 	throws   []throwRec
 	variants map[int]string
 	locals   []localAlloc // non-escaping allocations: untouched by callees and havocs
+	calleePure string     // condition under which the call being applied is pure
+	inLoopHavoc bool
+}
+
+// wrote records a write to caller-visible memory; under a pure_if contract it is an
+// obligation that the write is unreachable when the purity condition held at entry.
+func (f *frame) wrote(what string) {
+	top := f.enc.top
+	if top == nil || top.contract == nil || top.contract.PureIf == nil || f.enc.pureCond == "" || f.inLoopHavoc {
+		return
+	}
+	cond := not(f.enc.pureCond)
+	if f.calleePure != "" {
+		cond = or(cond, f.calleePure)
+	}
+	pos := token.NoPos
+	f.oblige("frame.pure", what, cond, "pure_if "+top.contract.PureIf.Text, pos)
 }
 
 type localAlloc struct {
@@ -328,6 +346,9 @@ func (f *frame) loadLoc(l *Loc, h Heap) string {
 		key, sort := e.cellHeapKey(l.elemT)
 		return fmt.Sprintf("(select %s %s)", e.heapGet(h, key, sort), l.base)
 	case locGlobal:
+		if t, ok := e.globalConstTerm(l.global); ok {
+			return t
+		}
 		key := "G_" + mangle(l.global.Pkg.Pkg.Name()+"."+l.global.Name())
 		return e.heapGet(h, key, e.R.sortOf(l.elemT))
 	}
@@ -984,6 +1005,8 @@ func (f *frame) loopHead(li *loopInfo) {
 		f.assume(inv)
 	}
 	// havoc heap arrays written in the loop
+	f.inLoopHavoc = true
+	defer func() { f.inLoopHavoc = false }()
 	for _, key := range f.loopWrites(li) {
 		if key == "*" {
 			f.havocAllHeap()
@@ -1058,6 +1081,7 @@ func (f *frame) loopWrites(li *loopInfo) []string {
 // havocAllHeap forgets everything about the heap: explicit entries are dropped and a new
 // epoch is installed, so that every later first touch of an array yields a fresh constant.
 func (f *frame) havocAllHeap() {
+	f.wrote("call with unknown side effects")
 	old := f.curHeap.clone()
 	for k := range f.curHeap {
 		delete(f.curHeap, k)
